@@ -1065,21 +1065,30 @@ func (vx *Vaxis) handleSequence(seq ansi.Sequence) {
 			// content. In this case, we don't want to fill the channel buffer
 			// as no one will clear it.
 			if vx.CanReportColor() {
-				vx.chColor <- string(seq.Payload)
+				select {
+				case vx.chColor <- string(seq.Payload):
+				default:
+				}
 			}
 			vx.PostEventBlocking(capabilityOsc4{})
 		}
 		if strings.HasPrefix(string(seq.Payload), "10") {
 			// Similar to OSC 4
 			if vx.CanReportForegroundColor() {
-				vx.chFg <- string(seq.Payload)
+				select {
+				case vx.chFg <- string(seq.Payload):
+				default:
+				}
 			}
 			vx.PostEventBlocking(capabilityOsc10{})
 		}
 		if strings.HasPrefix(string(seq.Payload), "11") {
 			// Similar to OSC 4
 			if vx.CanReportBackgroundColor() {
-				vx.chBg <- string(seq.Payload)
+				select {
+				case vx.chBg <- string(seq.Payload):
+				default:
+				}
 			}
 			vx.PostEventBlocking(capabilityOsc11{})
 		}
